@@ -42,6 +42,10 @@ def candidates(g, rng, n_sub=3):
         P = G.subgroup_point(g, rng)
         out.append(("sub", P))
         out.append(("sub", c.neg(P)))
+    # subgroup points with a coordinate whose leading bytes equal those of the modulus / are zero
+    for tag, P in rng.sample(G.prefix_points(g), 2 * n_sub):
+        out.append((tag, P))
+        out.append((tag, c.neg(P)))
     so = G.small_order_points(g, rng)
     for l, P in so.items():
         out.append(("ord%d" % l, P))
